@@ -91,8 +91,12 @@ class Ctx:
         return res
 
     # ---------------------------------------------------------------- results
+    _wit_family = None
+
     def absorb(self, r, label=None):
         """fold one symbolic-harness result into the evidence counters; returns list of counterexamples to replay"""
+        if self._wit_family is None:
+            self._wit_family = {}
         c = self.cov
         label = label or '%s.%s%s' % (r['job']['mod'].split('.')[-1], r['job']['fn'], _short(r['job'].get('args', {})))
         h = {'wall_s': r.get('wall_s')}
@@ -124,8 +128,18 @@ class Ctx:
         if r.get('witness') is not None:
             c['vacuity_witnesses'][label] = r['witness']
             bad = [k for k, v in r['witness'].items() if v != 'sat']
-            if bad:
+            if bad and r['job'].get('args', {}).get('prefix'):
+                # a prefix-split job explores one slice of the decision tree: a witness has to be reachable in SOME slice of the family
+                fam = (r['job']['mod'], r['job']['fn'], json.dumps({k: v for k, v in r['job']['args'].items() if k != 'prefix'}, sort_keys=True, default=str))
+                self._wit_family.setdefault(fam, {'label': label, 'sat': set(), 'bad': set()})
+                self._wit_family[fam]['sat'] |= {k for k, v in r['witness'].items() if v == 'sat'}
+                self._wit_family[fam]['bad'] |= set(bad)
+            elif bad:
                 self.harness_errors.append('%s: vacuity witness not sat: %s' % (label, bad))
+            elif r['job'].get('args', {}).get('prefix') is not None:
+                fam = (r['job']['mod'], r['job']['fn'], json.dumps({k: v for k, v in r['job']['args'].items() if k != 'prefix'}, sort_keys=True, default=str))
+                self._wit_family.setdefault(fam, {'label': label, 'sat': set(), 'bad': set()})
+                self._wit_family[fam]['sat'] |= set(r['witness'])
         if r.get('truncated'):
             h['truncated'] = True
             c['inconclusive'] += 1
@@ -181,6 +195,10 @@ class Ctx:
     # ---------------------------------------------------------------- verdict
     def finish(self):
         c = self.cov
+        for fam, w in (self._wit_family or {}).items():
+            never = sorted(w['bad'] - w['sat'])
+            if never:
+                self.harness_errors.append('%s (all prefix slices): vacuity witness not sat in any slice: %s' % (w['label'], never))
         wall = round(time.time() - self.t0, 2)
         if not c['samples']:
             c['samples'] = ['(no obligation samples recorded)']
